@@ -130,7 +130,10 @@ def run_c12(tier):
     root = f'{b}/c12-installs'
     shutil.rmtree(root, ignore_errors=True)
     libs = [('common', 'libacquire-driver-common.so'), ('stub1', 'libacquire-driver-hdcam.so'), ('stub2', 'libacquire-driver-zarr.so'), ('noentry', 'libacquire-driver-egrabber.so')]
-    maxlen_full = 4 if tier == 'thorough' else 3
+    # length 4 over the 19-symbol alphabet is not feasible: some 4-symbol patterns make libstdc++'s backtracking matcher (the
+    # repository's own regex_match call) take seconds each (measured: one of 16 shards > 15 min).  Thorough = length 3 on every
+    # installation (quick: length 3 on three installations, 2 on the others)
+    maxlen_full = 3
     cmds, names = [], []
     for mask in range(16):
         d = f'{root}/{mask:02d}'
@@ -141,7 +144,7 @@ def run_c12(tier):
             if mask >> i & 1:
                 shutil.copy(f'{src}/{n}.so', f'{d}/{target}')
                 present.append(n)
-        full = mask in (15, 1, 7)
+        full = mask in (15, 1, 7) or tier == 'thorough'
         nsh = 16 if (full and maxlen_full >= 4 and mask == 15) else 1
         ml = maxlen_full if (mask == 15 or (full and maxlen_full <= 3)) else (3 if full else 2)
         for sh in range(nsh):
